@@ -93,18 +93,24 @@ class Member:
         return _remembered(self.kind, self.ctx, len(self.numbers_saved), self.numbers_saved)
 
 
+_WELLS = None
+
+
 def _calc():
     from ase.calculators.calculator import Calculator, all_changes
 
-    class Wells(Calculator):
-        implemented_properties = ("energy", "forces")
+    global _WELLS
+    if _WELLS is None:   # one class for all members (a class per call makes interpreter shutdown quadratic)
+        class Wells(Calculator):
+            implemented_properties = ("energy", "forces")
 
-        def calculate(self, atoms=None, properties=("energy",), system_changes=all_changes):
-            super().calculate(atoms, properties, system_changes)
-            p = self.atoms.get_positions() - 4.0
-            self.results = {"energy": float(0.05 * (p**2).sum() + 1e-3 * self.atoms.cell.volume), "forces": -0.1 * p}
+            def calculate(self, atoms=None, properties=("energy",), system_changes=all_changes):
+                super().calculate(atoms, properties, system_changes)
+                p = self.atoms.get_positions() - 4.0
+                self.results = {"energy": float(0.05 * (p**2).sum() + 1e-3 * self.atoms.cell.volume), "forces": -0.1 * p}
 
-    return Wells()
+        _WELLS = Wells
+    return _WELLS()
 
 
 def multi_contexts_layer(rep, tier):
